@@ -384,7 +384,7 @@ def run(ctx: Ctx) -> None:
                                                      ctx.pick(4, 5), DEVS, INV)),
                     ("plain values, deeper", cfg("Spec", '{"plain"}', '{"small", "mid"}', "{1}",
                                                   ctx.pick(7, 9), DEVS, INV))]:
-        res = expect_clean(run_tlc("seq/ValueStore.tla", c, ctx.scratch, workers=ctx.pick(8, "auto"),
+        res = expect_clean(run_tlc("seq/ValueStore.tla", c, ctx.scratch, workers=ctx.pick(4, "auto"),
                                    timeout=1500), f"ValueStore.tla invariants ({what})")
         ctx.add_tlc(res)
     res = expect_violation(run_tlc("seq/ValueStore.tla",
@@ -442,13 +442,15 @@ def run(ctx: Ctx) -> None:
         wit["steps"].append({"op": op, "res": obs["res"], "gets": obs["gets"], "note": obs["note"]})
     traces.append(wit)
     # negative control: one get of one trace answers with another value's id
-    src = next(t for t in traces if any(len(s["gets"]) >= 2 and any(r != ["absent"] for _, r in s["gets"])
-                                        for s in t["steps"]))
+    def first_hit(t):
+        return next((i for i, st in enumerate(t["steps"]) if any(r != ["absent"] for _, r in st["gets"])), 99)
+
+    src = next(t for t in traces if first_hit(t) <= 2)
     bad = copy.deepcopy(src)
-    at = next(i for i, s in enumerate(bad["steps"])
-              if len(s["gets"]) >= 2 and any(r != ["absent"] for _, r in s["gets"]))
+    at = first_hit(bad)
     gi = next(i for i, (_, r) in enumerate(bad["steps"][at]["gets"]) if r != ["absent"])
-    bad["steps"][at]["gets"][gi][1] = bad["steps"][at]["gets"][(gi + 1) % len(bad["steps"][at]["gets"])][0]
+    v = bad["steps"][at]["gets"][gi][0]
+    bad["steps"][at]["gets"][gi][1] = [v[0], v[1], 3 - v[2]]
     traces.append(bad)
     verdicts = validate_traces(ctx, traces, "random")
     nc = verdicts[len(traces)]
